@@ -34,7 +34,8 @@ Inductive cell :=
   | Obj (t : nat)                (* the object returned by operation number t (array, contour, axes) *)
   | Rng                          (* numpy's global random state *)
   | Figs                         (* matplotlib's figure registry *)
-  | File (t : nat).              (* the file written by operation number t *)
+  | File (t : nat)               (* the file written by operation number t *)
+  | Glob (g : nat).              (* a module-level object of virocon.* (list, dict, array, random generator) *)
 
 Definition field_eqb (a b : field) : bool :=
   match a, b with
@@ -46,7 +47,7 @@ Definition field_eqb (a b : field) : bool :=
 Definition cell_eqb (a b : cell) : bool :=
   match a, b with
   | M k f, M k' f' => Nat.eqb k k' && field_eqb f f'
-  | Arr a, Arr b | FitDesc a, FitDesc b | Obj a, Obj b | File a, File b => Nat.eqb a b
+  | Arr a, Arr b | FitDesc a, FitDesc b | Obj a, Obj b | File a, File b | Glob a, Glob b => Nat.eqb a b
   | Rng, Rng | Figs, Figs => true
   | _, _ => false
   end.
@@ -54,10 +55,12 @@ Definition mem (c : cell) (l : list cell) : bool := existsb (cell_eqb c) l.
 
 (* public entry points that take a model *)
 Inductive entry :=
-  | Pdf | Cdf | MarginalPdf | MarginalCdf | MarginalIcdf | ConditionalCdf | ConditionalIcdf
+  | Pdf | Cdf | MarginalPdf | MarginalCdf | MarginalIcdf | MarginalIcdfSeeded | ConditionalCdf | ConditionalIcdf
+  | ConditionalSample            (* seeded rejection sampling *)
   | DrawSampleSeeded | DrawSample | EmpiricalCdf
+  | DepCall                      (* DependenceFunction.__call__ *)
   | DistPdf | DistCdf | DistIcdf | DistSampleSeeded
-  | IFORM | IFORMMonteCarlo | ISORM | HDC | HDCDefaultGrid | DirectSampling | AndC | OrC
+  | IFORM | IFORMMonteCarlo | IFORMSeeded (* TransformedModel with random_state set *) | ISORM | HDC | HDCDefaultGrid | DirectSampling | AndC | OrC
   | PlotMarginalQuantiles | PlotDependenceFunctions | PlotHistograms | PlotIsodensity.
 
 (* operations on a contour object *)
